@@ -4,7 +4,7 @@ import RedisVerif.Model.Replica
   Cluster model for C06 (replication at the message level): n shard replication states, the
   monotone history of every delta ever issued, and the log of every absorption (a node taking a
   delta into its state, either by creating it or by receiving it).  The network is an arbitrary
-  list of `deliver` events: any message of the history may be delivered to any other node at any
+  list of `deliver` events: any message of the history may be delivered to any node (its origin included) at any
   time, any number of times, in any order (delay, reordering, duplication, loss followed by
   redelivery, partitions that heal); anti-entropy pushes are deliveries too.
 
@@ -79,14 +79,53 @@ def step (c : Cluster) : Ev → Cluster
   | .deliver j idx =>
     match c.nodes[j]?, c.sent[idx]? with
     | some s, some m =>
-      if m.origin = j then c
-      else
-        { c with
-          nodes := c.nodes.set j (Shard.applyRemote s m.key m.val)
-          log := c.log ++ [⟨j, m.key, m.val⟩] }
+      -- no origin check: `apply_remote_delta` merges (and advances the clock past) whatever arrives,
+      -- the node's own deltas echoed back by a peer, anti-entropy or recovery included
+      { c with
+        nodes := c.nodes.set j (Shard.applyRemote s m.key m.val)
+        log := c.log ++ [⟨j, m.key, m.val⟩] }
     | _, _ => c
 
 def run (c : Cluster) (evs : List Ev) : Cluster := evs.foldl step c
+
+/-- node `i` crashes and comes back EMPTY (`ShardReplicaState::new` with the same replica id and
+    consistency level: Lamport clock 0, no keys).  What it gets back — from its WAL / segments
+    through `apply_recovered_state(None, deltas)` = `apply_remote_deltas`, from a peer's
+    redelivery or anti-entropy — are ordinary `deliver` events, its OWN old deltas included.  The
+    absorption log forgets what the lost state had absorbed. -/
+def restart (c : Cluster) (i : Nat) : Cluster :=
+  match c.nodes[i]? with
+  | none => c
+  | some s =>
+    { c with
+      nodes := c.nodes.set i (Shard.init s.rid s.causal)
+      log := c.log.filter (fun a => a.node ≠ i) }
+
+/-- events of an execution with crashes -/
+inductive REv where
+  | ev (e : Ev)
+  | restart (i : Nat)
+  deriving DecidableEq, Repr
+
+def stepR (c : Cluster) : REv → Cluster
+  | .ev e => c.step e
+  | .restart i => c.restart i
+
+def runR (c : Cluster) (evs : List REv) : Cluster := evs.foldl stepR c
+
+/-- `deliver` as it would be if `apply_remote_delta` did NOT advance the Lamport clock for a delta
+    stamped with the node's own replica id ("our own delta echoed back is never ahead of our
+    clock") — not the code that exists; the object of `C06.own_echo_skips_clock_counterexample` -/
+def stepSkipOwn (c : Cluster) : REv → Cluster
+  | .ev (.deliver j idx) =>
+    match c.nodes[j]?, c.sent[idx]? with
+    | some s, some m =>
+      let s' := Shard.applyRemote s m.key m.val
+      { c with
+        nodes := c.nodes.set j (if m.val.ts.rid = s.rid then { s' with clock := s.clock } else s')
+        log := c.log ++ [⟨j, m.key, m.val⟩] }
+    | _, _ => c
+  | e => c.stepR e
 
 end Cluster
 end RedisVerif
